@@ -55,7 +55,8 @@ PROBES_WANTED = ['sample_in_last_interval', 'three_in_one_interval', 'stamp_at_s
                  'rounding_makes_step_short', 'rows_sparser_than_increments',
                  'empty_table', 'all_samples_lost', 'measurements_none',
                  'measurements_empty', 'models_omitted', 'default_time_step',
-                 'gps_week_scale_clock', 'negative_clock']
+                 'gps_week_scale_clock', 'negative_clock', 'clock_crosses_zero',
+                 'a_plus_gap_rounds_off_next_stamp', 'stamp_one_ulp_from_epoch']
 
 
 def describe():
